@@ -471,6 +471,28 @@ def run(ctx):
             den = strip_refs(dv['den'])
             tot = q.is_call(den, 'sum')
             ok = bool(red and tot)
+        # the reduced vector has exactly one entry per action of the infoset being resolved (a longer, reused buffer
+        # lets its padding compete in the maximum)
+        for dv in divs:
+            num = strip_refs(dv['num'])
+            x = strip_refs(num[2][0]) if q.is_call(num, 'unwrap') and num[2] else num
+            if not (x[0] == 'call' and short(x[1]) in ('reduce', 'fold') and x[2]):
+                continue
+            src = strip_refs(x[2][0])
+            while src[0] == 'call' and short(src[1]) in ('into_iter', 'iter', 'copied', 'cloned', 'by_ref') and src[2]:
+                src = strip_refs(src[2][0])
+            popped_info = [e_ for _, _, e_ in q.calls_named(f, 'pop')]
+            if src[0] == 'call' and short(src[1]) == 'from_elem' and len(src[2]) == 2:
+                n_ = strip_refs(src[2][1])
+                per_infoset = q.is_num_actions(n_) and q.find_sub(n_, lambda s_: s_[0] == 'call' and any(s_[3] == p_[3] for p_ in popped_info)) is not None
+                ctx.verdict(per_infoset, rule, rule + ':payoff-vector-length', 'the per-action payoff vector that is maximised has num_actions(this infoset) entries', f.where(line=dv['line']),
+                            'length %s' % facts.show(n_)[:70], breaks='zero padding of a shared buffer competes in the maximum: a negative best-response value is reported as 0')
+            elif src[0] == 'var' and 'Vec<f64>' in f.locals[src[1]]['ty']:
+                vals_ = [strip_refs(v_) for _, _, v_ in q.multi_def_values(f, src[1])]
+                lens_ = [strip_refs(v_[2][1]) for v_ in vals_ if v_[0] == 'call' and short(v_[1]) == 'from_elem' and len(v_[2]) == 2]
+                if lens_ and not all(q.is_num_actions(n_) and q.find_sub(n_, lambda s_: s_[0] == 'call' and any(s_[3] == p_[3] for p_ in popped_info)) is not None for n_ in lens_):
+                    ctx.verdict(False, rule, rule + ':payoff-vector-length', 'the per-action payoff vector that is maximised has num_actions(this infoset) entries', f.where(line=dv['line']),
+                                'buffer allocated with length %s and reused' % [facts.show(n_)[:40] for n_ in lens_], breaks='zero padding of a shared buffer competes in the maximum: a negative best-response value is reported as 0')
         ctx.verdict(ok, rule, rule + ':max-over-actions', 'an infoset\'s value is the f64::max reduction of its per-action payoffs divided by the total reach of its nodes', f.where(line=divs[0]['line']) if divs else f.where(0), 'recognised: %s' % ok,
                     breaks='the deviation is not the best action')
         acc = False
